@@ -599,6 +599,9 @@ func replayScenario(name string, beh []map[string]any, wtCand bool) Scenario {
 			if d, _ := a["dwin"].(bool); a["a"] == "flush.done" || d {
 				g.Park("L.drain", true)
 			}
+			if d, _ := a["cwin"].(bool); a["a"] == "appclose.wait" || d {
+				g.Park(closeWaitPoint, true)
+			}
 		}
 		sid := s.Sid
 		var cand *WSClient
@@ -623,6 +626,8 @@ func replayScenario(name string, beh []map[string]any, wtCand bool) Scenario {
 			case "appclose":
 				d, _ := a["discard"].(bool)
 				go w.Close(sid, d)
+			case "appclose.wait":
+				g.Release(closeWaitPoint)
 			case "poll":
 				c.poll = w.StartReq("poll", s, ReqOpt{})
 			case "poll.overlap":
